@@ -10,6 +10,7 @@ import (
 	"errors"
 	"fmt"
 	"net"
+	"strings"
 	"sync"
 	"testing"
 	"time"
@@ -26,12 +27,14 @@ type c18RealCase struct {
 	Dialers    int    `json:"dialers"`
 	DialAtUs   []int  `json:"dialAtUs"` // per dialer: microseconds after the start
 	CloseAtUs  int    `json:"closeAtUs"`
-	Speak      bool   `json:"speak"`            // dialers send a new-session envelope
-	Cycles     int    `json:"cycles,omitempty"` // > 1: the same Server value is served and closed that many times (same peers each time)
+	Speak      bool   `json:"speak"`             // dialers send a new-session envelope
+	Overlap    bool   `json:"overlap,omitempty"` // with cycles > 1: the next serve call starts right after Close returned, not after the previous serve call returned
+	Cycles     int    `json:"cycles,omitempty"`  // > 1: the same Server value is served and closed that many times (same peers each time)
 }
 
 type c18RealObs struct {
 	Note      string
+	CloseErr  string
 	ServeErr  string
 	Connected int
 	Served    int // got bytes back
@@ -73,6 +76,12 @@ func runC18Real(c *c18RealCase) *c18RealObs {
 		cycles = 1
 	}
 	var mu sync.Mutex
+	var pending []func()
+	defer func() {
+		for _, f := range pending {
+			f()
+		}
+	}()
 	for cycle := 0; cycle < cycles; cycle++ {
 		done := make(chan error, 1)
 		go func() {
@@ -165,14 +174,25 @@ func runC18Real(c *c18RealCase) *c18RealObs {
 			}(i)
 		}
 		time.Sleep(time.Until(start.Add(time.Duration(c.CloseAtUs) * time.Microsecond)))
-		_ = server.Close()
-		select {
-		case err := <-done:
-			if e := fmt.Sprint(err); obs.ServeErr == "" || e != lime.ErrServerClosed.Error() {
-				obs.ServeErr = e
+		if cerr := server.Close(); cerr != nil && strings.Contains(cerr.Error(), "not listening") {
+			obs.CloseErr = cerr.Error()
+		}
+		waitServe := func(done chan error) {
+			select {
+			case err := <-done:
+				if e := fmt.Sprint(err); obs.ServeErr == "" || e != lime.ErrServerClosed.Error() {
+					obs.ServeErr = e
+				}
+			case <-time.After(10 * time.Second):
+				obs.ServeErr = "ListenAndServe did not return"
 			}
-		case <-time.After(10 * time.Second):
-			obs.ServeErr = "ListenAndServe did not return"
+		}
+		if c.Overlap && cycle+1 < cycles {
+			// the application serves again as soon as Close has returned, without waiting for the previous serve call to come back
+			prev := done
+			pending = append(pending, func() { waitServe(prev) })
+		} else {
+			waitServe(done)
 		}
 		wg.Wait()
 		if obs.ServeErr != lime.ErrServerClosed.Error() {
@@ -208,6 +228,12 @@ func judgeC18Real(c *c18RealCase, obs *c18RealObs, o *Outcome) {
 		o.Class("nobody-connected")
 	}
 	o.NonTrivial = obs.Ended > 0 || (obs.Served > 0 && obs.Served < obs.Connected)
+	if c.Overlap {
+		o.Class("serve-again-before-the-previous-call-returned")
+	}
+	if obs.CloseErr != "" {
+		o.Fail("C18/real/close-says-not-listening", "Close answered %q while a serve call was running", obs.CloseErr)
+	}
 	if obs.ServeErr != lime.ErrServerClosed.Error() {
 		o.Fail("C18/real/serve-result", "ListenAndServe returned %q", obs.ServeErr)
 	}
@@ -230,7 +256,8 @@ func TestC18RealAccept(t *testing.T) {
 			Speak:      rapid.IntRange(0, 4).Draw(rt, "speak") > 0,
 		}
 		if rapid.IntRange(0, 3).Draw(rt, "again") == 0 {
-			c.Cycles = 2
+			c.Cycles = rapid.IntRange(2, 3).Draw(rt, "cycles")
+			c.Overlap = rapid.Bool().Draw(rt, "overlap")
 		}
 		c.CloseAtUs = rapid.IntRange(200, 6000).Draw(rt, "closeAt")
 		// half of the cases: everybody dials within a few hundred microseconds before the closing (the queues are full then)
@@ -246,4 +273,121 @@ func TestC18RealAccept(t *testing.T) {
 		judgeC18Real(c, runC18Real(c), o)
 		rec.Check(rt, c, o)
 	})
+}
+
+// TestC18ListenerRestart: the library's listeners are started and closed again and again, as fast as possible (a Server that
+// is served again right after Close does exactly this): nothing panics.
+func TestC18ListenerRestart(t *testing.T) {
+	rec := NewRecorder("C18", "TestC18ListenerRestart")
+	defer rec.Finish(t)
+	for _, kind := range []string{"tcp", "ws"} {
+		c := map[string]interface{}{"listener": kind, "rounds": Scale(3000, 30000)}
+		rec.Journal(c)
+		o := &Outcome{NonTrivial: true}
+		o.Class("listener-restart=" + kind)
+		port, err := FreePort()
+		if err != nil {
+			o.Class("skipped")
+			rec.Eval(c, o)
+			continue
+		}
+		addr := &net.TCPAddr{IP: net.IPv4(127, 0, 0, 1), Port: port}
+		var l lime.TransportListener
+		if kind == "tcp" {
+			l = lime.NewTCPTransportListener(&lime.TCPConfig{ConnBuffer: 1})
+		} else {
+			l = lime.NewWebsocketTransportListener(&lime.WebsocketConfig{ConnBuffer: 1})
+		}
+		rounds := Scale(3000, 30000)
+		if kind == "ws" {
+			rounds /= 10
+		}
+		if p := Protect(func() {
+			for i := 0; i < rounds; i++ {
+				if err := l.Listen(context.Background(), addr); err != nil {
+					continue
+				}
+				_ = l.Close()
+			}
+		}); p != "" {
+			o.Fail("C18/listener-restart/panic/"+kind, "%s", p)
+		}
+		rec.Eval(c, o)
+	}
+}
+
+// slowStopListener wraps a listener whose accept loop takes its time to notice that the server is closing.
+type slowStopListener struct {
+	lime.TransportListener
+	gate chan struct{}
+}
+
+func (l *slowStopListener) Accept(ctx context.Context) (lime.Transport, error) {
+	t, err := l.TransportListener.Accept(ctx)
+	if err != nil {
+		<-l.gate
+	}
+	return t, err
+}
+
+// TestC18ServeAgainEarly: Close, then ListenAndServe again while the previous serve call has not come back yet (its accept
+// loop is slow to stop), then that call returns, then Close: both serve calls return the server-closed error and Close never
+// claims that nothing is listening.
+func TestC18ServeAgainEarly(t *testing.T) {
+	rec := NewRecorder("C18", "TestC18ServeAgainEarly")
+	defer rec.Finish(t)
+	for _, kind := range []string{"tcp", "ws"} {
+		c := map[string]interface{}{"listener": kind}
+		rec.Journal(c)
+		o := &Outcome{NonTrivial: true}
+		o.Class("serve-again-early=" + kind)
+		port, err := FreePort()
+		if err != nil {
+			o.Class("skipped")
+			rec.Eval(c, o)
+			continue
+		}
+		addr := &net.TCPAddr{IP: net.IPv4(127, 0, 0, 1), Port: port}
+		var inner lime.TransportListener
+		if kind == "tcp" {
+			inner = lime.NewTCPTransportListener(nil)
+		} else {
+			inner = lime.NewWebsocketTransportListener(nil)
+		}
+		sl := &slowStopListener{TransportListener: inner, gate: make(chan struct{})}
+		cfg := lime.NewServerConfig()
+		cfg.SchemeOpts = []lime.AuthenticationScheme{lime.AuthenticationSchemeGuest}
+		srv := lime.NewServer(cfg, &lime.EnvelopeMux{}, lime.NewBoundListener(sl, addr))
+		first, second := make(chan error, 1), make(chan error, 1)
+		go func() { first <- srv.ListenAndServe() }()
+		time.Sleep(50 * time.Millisecond)
+		if err := srv.Close(); err != nil && !strings.Contains(err.Error(), "use of closed") {
+			o.Fail("C18/serve-again/first-close", "first Close: %v", err)
+		}
+		go func() { second <- srv.ListenAndServe() }() // the first call is still held up by its slow accept loop
+		time.Sleep(50 * time.Millisecond)
+		close(sl.gate) // now the first call comes back
+		select {
+		case err := <-first:
+			if err != lime.ErrServerClosed {
+				o.Fail("C18/serve-again/first-serve-result", "first ListenAndServe returned %v", err)
+			}
+		case <-time.After(5 * time.Second):
+			o.Fail("C18/serve-again/first-serve-never-returned", "the first ListenAndServe did not return")
+		}
+		time.Sleep(20 * time.Millisecond)
+		if err := srv.Close(); err != nil && strings.Contains(err.Error(), "not listening") {
+			o.Fail("C18/serve-again/close-says-not-listening", "Close answered %q while the second serve call is running", err)
+		}
+		select {
+		case err := <-second:
+			if err != lime.ErrServerClosed {
+				o.Fail("C18/serve-again/second-serve-result", "second ListenAndServe returned %v", err)
+			}
+		case <-time.After(5 * time.Second):
+			o.Fail("C18/serve-again/second-serve-never-returned", "the second ListenAndServe did not return after Close")
+			_ = inner.Close()
+		}
+		rec.Eval(c, o)
+	}
 }
